@@ -31,6 +31,7 @@ struct Case {
     pre: bool,
     tmp_ok: bool,
     cache_ok: bool,
+    move_ok: bool,
     kind: String,
     scripts: Vec<UrlScript>,
     pc: String,
@@ -263,6 +264,7 @@ fn parse_case(v: &Value) -> Case {
         pre: env["pre"].as_bool().unwrap(),
         tmp_ok: env["tmpOk"].as_bool().unwrap(),
         cache_ok: env["cacheOk"].as_bool().unwrap(),
+        move_ok: env["moveOk"].as_bool().unwrap_or(true),
         kind: env["kind"].as_str().unwrap().to_string(),
         scripts,
         pc: v["pc"]["a"].as_str().unwrap().to_string(),
@@ -271,6 +273,29 @@ fn parse_case(v: &Value) -> Case {
         cache_url: v["cache"]["url"].as_u64().unwrap() as usize,
         raw: v.clone(),
     }
+}
+
+/// Where the temp directory of a scenario lives: next to the cache, or - when the final move must not be able to succeed - on
+/// another file system (/dev/shm), so that neither a hard link nor a rename can reach the cache.
+fn tmp_dir_for(case: &Case, sandbox: &Path) -> PathBuf {
+    if case.move_ok { return sandbox.join("tmp"); }
+    use std::hash::{Hash, Hasher};
+    let mut h = std::collections::hash_map::DefaultHasher::new();
+    sandbox.hash(&mut h);
+    PathBuf::from(format!("/dev/shm/verif-c16-{}/{:016x}/tmp", std::process::id(), h.finish()))
+}
+/// Whether /dev/shm really is a different file system from `work` (a hard link across must fail).
+fn cross_device_available(work: &Path) -> bool {
+    let d = PathBuf::from(format!("/dev/shm/verif-c16-{}", std::process::id()));
+    if std::fs::create_dir_all(&d).is_err() { return false; }
+    let src = d.join("probe");
+    if std::fs::write(&src, b"x").is_err() { return false; }
+    let dst = work.join("probe-link");
+    let _ = std::fs::remove_file(&dst);
+    let r = std::fs::hard_link(&src, &dst).is_err() && std::fs::rename(&src, &dst).is_err();
+    let _ = std::fs::remove_file(&dst);
+    let _ = std::fs::remove_file(&src);
+    r
 }
 
 const PRE_SYM: &str = "MODULE Linux x86_64 0123456789ABCDEF0123456789ABCDEF0 lib.so\nFUNC 7000 10 0 cached_earlier\nINFO URL http://earlier.example/lib.so.sym\n";
@@ -290,7 +315,7 @@ struct Observed {
 
 async fn play(case: &Case, n: usize, conc: Conc, root: &Path) -> Observed {
     let cache = root.join("cache");
-    let tmp = root.join("tmp");
+    let tmp = tmp_dir_for(case, root);
     std::fs::create_dir_all(&cache).unwrap();
     let (rel_dir, rel_file) = if case.kind == "sym" { (format!("lib.so/{}", DEBUG_ID), "lib.so.sym") } else { (format!("lib.so/{}", DEBUG_ID), "lib.so") };
     if case.pre {
@@ -302,6 +327,7 @@ async fn play(case: &Case, n: usize, conc: Conc, root: &Path) -> Observed {
     if case.tmp_ok {
         std::fs::create_dir_all(&tmp).unwrap();
     } else {
+        if let Some(p) = tmp.parent() { std::fs::create_dir_all(p).unwrap(); }
         std::fs::write(&tmp, b"not a directory").unwrap();
     }
     let mut servers = Vec::new();
@@ -379,8 +405,11 @@ fn main() {
             }
             let base = tempfile::Builder::new().prefix("vf-http-").tempdir().unwrap();
             let concs = [Conc { mid: false, chunked: false, via_file: false, redirect: false }, Conc { mid: true, chunked: true, via_file: false, redirect: false }, Conc { mid: true, chunked: false, via_file: false, redirect: false }, Conc { mid: false, chunked: true, via_file: false, redirect: false }];
+            let xdev = cross_device_available(base.path());
             let mut jobs = Vec::new();
             for (i, c) in cases.iter().enumerate() {
+                if !c.move_ok && !xdev { rep.class("skipped:no-second-file-system-for-a-failing-move"); continue; }
+                if !c.move_ok { rep.class("move-cannot-succeed"); }
                 for k in 0..nconc {
                     let mut conc = concs[(i + k) % 4];
                     conc.via_file = k % 2 == 1 && c.kind == "sym";
@@ -412,6 +441,7 @@ fn main() {
                             std::fs::create_dir_all(&sandbox).unwrap();
                             let obs = play(&case, n, conc, &sandbox).await;
                             last = judge(&case, n, conc, &obs, &root).await;
+                            if !case.move_ok { let t = tmp_dir_for(&case, &sandbox); if let Some(p) = t.parent() { let _ = std::fs::remove_dir_all(p); } }
                             let _ = std::fs::remove_dir_all(&root);
                             if last.0.is_empty() { break; }
                             retried += 1;
@@ -449,7 +479,7 @@ fn main() {
                     let root = base.path().join(format!("h{}_{}", i, kind));
                     let sandbox = root.join("outer").join("sandbox");
                     std::fs::create_dir_all(&sandbox).unwrap();
-                    let case = Case { pre: false, tmp_ok: true, cache_ok: true, kind: kind.to_string(), scripts: vec![UrlScript { status: 200, cut: 2, bad_at: 0, drop_at: 3 }], pc: "ok_cached".into(), cache_present: true, cache_by: "a".into(), cache_url: 1, raw: json!({"hostile": name, "kind": kind}) };
+                    let case = Case { pre: false, tmp_ok: true, cache_ok: true, move_ok: true, kind: kind.to_string(), scripts: vec![UrlScript { status: 200, cut: 2, bad_at: 0, drop_at: 3 }], pc: "ok_cached".into(), cache_present: true, cache_by: "a".into(), cache_url: 1, raw: json!({"hostile": name, "kind": kind}) };
                     let cache = sandbox.join("cache");
                     let tmp = sandbox.join("tmp");
                     std::fs::create_dir_all(&cache).unwrap();
@@ -606,6 +636,7 @@ fn main() {
             std::process::exit(2);
         }
     }
+    let _ = std::fs::remove_dir_all(format!("/dev/shm/verif-c16-{}", std::process::id()));
     rep.finish();
 }
 
@@ -614,7 +645,7 @@ async fn judge(case: &Case, n: usize, conc: Conc, obs: &Observed, root: &Path) -
     let mut mm: Vec<(String, Value)> = Vec::new();
     let sandbox = root.join("sandbox");
     let cache = sandbox.join("cache");
-    let tmp = sandbox.join("tmp");
+    let tmp = tmp_dir_for(case, &sandbox);
     let class = format!("{}{}:{}", case.kind, if conc.via_file { "-via-locate_file" } else { "" }, case.pc);
     let (rel, pre_bytes): (String, &[u8]) = if case.kind == "sym" { (format!("lib.so/{}/lib.so.sym", DEBUG_ID), PRE_SYM.as_bytes()) } else { (format!("lib.so/{}/lib.so", DEBUG_ID), PRE_FILE) };
     if obs.hung {
@@ -622,7 +653,7 @@ async fn judge(case: &Case, n: usize, conc: Conc, obs: &Observed, root: &Path) -
     }
     // result
     // asked for a path, a download that could not be cached has nothing to return
-    let want_ok = matches!(case.pc.as_str(), "hit" | "ok_cached" | "ok_lost_race") || (case.pc == "ok_uncached" && !conc.via_file);
+    let want_ok = matches!(case.pc.as_str(), "hit" | "ok_cached" | "ok_lost_race") || (matches!(case.pc.as_str(), "ok_uncached" | "ok_commit_failed") && !conc.via_file);
     let want_drop = case.pc == "dropped";
     if obs.dropped != want_drop || (!want_drop && obs.ok != want_ok) {
         mm.push(("result".into(), json!({"observed_ok": obs.ok, "observed_dropped": obs.dropped, "model": case.pc})));
